@@ -38,6 +38,12 @@ def dead_calls(g, fd, r, name):
             P = LONG
         if PL2 > 2:
             P2 = LONG
+        if getattr(g, 'abs_path_len', 0) and r.random() < 0.35:
+            # an ABSOLUTE guest path (of an existing symbolic link / file): whatever a host does with absolute paths for live
+            # descriptors, a dead descriptor number is EBADF
+            P2, PL2 = 0x2200, g.abs_path_len
+            if r.random() < 0.5:
+                P, PL = 0x2200, g.abs_path_len
     niov = r.choice([0, 1, 2]) if odd else 1
     if name == 'fd_close':
         return g.call(name, [fd])
@@ -116,6 +122,9 @@ def main(chk):
         checks = []  # (kind, output index, expectation, detail)
         g.poke(0x2000, b'zz')
         g.poke(0x2100, b'zy')
+        ap = (T + '/zl').encode()
+        g.poke(0x2200, ap)
+        g.abs_path_len = len(ap)
         g.poke(0x8000, b'q' * 9100)
         g.poke(0x2800, (0x3400).to_bytes(4, 'little') + (16).to_bytes(4, 'little'))
         g.poke(0x3400, b'0123456789abcdef')
